@@ -8,6 +8,8 @@ sys.path.insert(0, os.path.join(HERE, "sa"))
 sys.path.insert(0, HERE)
 
 CLAIMS = {
+    "C01": dict(technique="static analysis: symbolic shape identities (polynomial normal forms over instance parameters, gadget objects evaluated from constructors), panic-precondition analysis for narrow-integer totality, decoder/constructor agreement over MIR",
+                design="DESIGN.md section 5 C01"),
     "C02": dict(technique="static analysis: guard-relation/dominance rules and equality-coverage over compiler MIR facts",
                 design="DESIGN.md section 5 C02"),
     "C04": dict(technique="static analysis: typestate decision-table extraction over enum discriminants in MIR, guard-relation rules",
